@@ -13,6 +13,7 @@
 From Coq Require Import String List ZArith Bool.
 From Shoot Require Import Base.Str Model.Transfer Model.MapVal Model.Mapper Model.MapperEval Model.MapperSpec
      Proofs.MapperProofs Proofs.MapperPlanProofs Proofs.MapperFlattenProofs Proofs.MapperAnalyseProofs
+     Proofs.MapperCompleteProofs
      Corr.MapperCorr Proofs.MapperExamples Proofs.MapperExampleProofs.
 Import ListNotations.
 Local Open Scope string_scope.
@@ -72,6 +73,36 @@ Theorem C05_pass_invariant : forall sigma jb a pr,
   /\ NoDup (map f_name (s_src (a_state a))) /\ NoDup (map f_name (s_dst (a_state a))).
 Proof. exact analyse_inv. Qed.
 Print Assumptions C05_pass_invariant.
+
+(* ---- completeness (ToX), first half; _partial: it shows that the field is
+   CLAIMED (it is in the write-once set after the passes: claimed by them, or
+   covered before them by the constructor call / a manual method).  Still
+   missing for the full statement "is written with the strategy of highest
+   priority": that under one-to-one matching the claim is by exactly that
+   source (no later Target overwrite) and which of the applicable strategies
+   wins; and the symmetric FromX statement.  Both are evaluated, not proved: the
+   declarative specification Model/MapperSpec.v is compared inside Coq with
+   every sampled execution.  The guard match_inj (each source field name-matches
+   at most one destination field) is necessary: C05_refuted_K_map_fanout_target. *)
+Theorem C05_complete_claimed_partial : forall sigma jb a pr i j,
+  analyse sigma jb = Some a -> prepare jb = Some pr -> acc_guard jb ->
+  match_inj (p_tags (pr_src pr)) (j_ic jb) (pr_s0 pr) ->
+  i < length (s_src (pr_s0 pr)) -> j < length (s_dst (pr_s0 pr)) ->
+  can_name_match (src_at (pr_s0 pr) i) (dst_at (pr_s0 pr) j) (p_tags (pr_src pr)) (j_ic jb) = true ->
+  f_isget (dst_at (pr_s0 pr) j) = false ->
+  mismatch_applicable (j_funcs jb) (f_ty (src_at (pr_s0 pr) i)) (f_ty (dst_at (pr_s0 pr) j))
+  \/ match_applicable (j_env jb) (f_ty (src_at (pr_s0 pr) i)) (f_ty (dst_at (pr_s0 pr) j)) ->
+  s_has (s_wdst (a_state a)) (f_name (dst_at (pr_s0 pr) j)) = true.
+Proof. exact analyse_complete_to. Qed.
+Print Assumptions C05_complete_claimed_partial.
+
+Example C05_complete_hypotheses_satisfiable :
+  exists pr, prepare (job_of ex1 "T") = Some pr
+             /\ match_inj (p_tags (pr_src pr)) false (pr_s0 pr)
+             /\ f_name (src_at (pr_s0 pr) 3) = "UserID" /\ f_name (dst_at (pr_s0 pr) 3) = "UserId"
+             /\ can_name_match (src_at (pr_s0 pr) 3) (dst_at (pr_s0 pr) 3) (p_tags (pr_src pr)) false = true
+             /\ match_applicable (ps_env ex1) (f_ty (src_at (pr_s0 pr) 3)) (f_ty (dst_at (pr_s0 pr) 3)).
+Proof. exact ex1_complete_hyps. Qed.
 
 (* ---- "-way limits generation to the requested direction" *)
 Theorem C05_way : forall w,
